@@ -303,11 +303,13 @@ func harnessC14Pattern() {
 	for i := range b {
 		verif.Assume(verif.And(b[i] >= 1, b[i] <= 0x7F))
 	}
-	_, err := Parse(verif.String(b))
+	res, err := Parse(verif.String(b))
 	if err != nil {
 		verif.Assert(len(err.Error()) > 0, "an error without a description")
 		verif.Reach("rejected")
 		return
 	}
 	verif.Reach("accepted")
+	// this harness runs with the real automata library, so the result is the real automaton
+	verif.Assert(res != nil, "success with a nil result")
 }
